@@ -33,7 +33,7 @@ OPTS_ALL = list(itertools.product((False, True), (False, True), tuple(range(len(
 OPTS_NOEXTRA = [o for o in OPTS_ALL if o[3] == 0]
 
 B_PROTO = ["http://", "https://", "www.", "ftp://"]
-B_SPECIAL = ["&", '"', "'", "&amp;", "?", ".", "<", "\u00e9"]
+B_SPECIAL = ["&", '"', "'", "&amp;", "?", ".", "<", "\u00e9", "&b&", "&&", '"&', "&'x&"]
 B_TAIL = ["", "x", "x" * 20, "/yy", ".z"]
 B_SEG = [None] + list(range(0, 10))
 LETTERS = "abcdefghijklmnopqrstuvwxyz" * 3
